@@ -57,7 +57,7 @@ func init() {
 	}
 }
 
-func (f *frame) quant() bool { return f.ex.mode.Functional }
+func (f *frame) quant() bool { return f.ex.mode.Functional || f.ex.relQuant }
 
 func bytesOf(st *State, v Val) (VSlice, T) {
 	s := v.(VSlice)
